@@ -8,6 +8,7 @@ import (
 	"fmt"
 	"go/token"
 	"go/types"
+	"strings"
 
 	"golang.org/x/tools/go/ssa"
 )
@@ -436,6 +437,11 @@ func (ex *exec) noteWrite(obj interface{}, instr interface{}) {
 		return
 	}
 	m := ex.mutex(tr.mx)
+	ex.oblig["C13.write-needs-write-lock"]++
+	if tr.allow["immutable:"+path] {
+		ex.lockViolation("C13.immutable-field-written", path, instr, m)
+		return
+	}
 	if m.w {
 		return
 	}
@@ -452,6 +458,7 @@ func (ex *exec) noteRead(p *value, instr interface{}) {
 		return
 	}
 	m := ex.mutex(tr.mx)
+	ex.oblig["C13.read-needs-lock"]++
 	if m.w || m.r > 0 {
 		return
 	}
@@ -486,7 +493,10 @@ func (ex *exec) lockViolation(oblig, path string, instr interface{}, m *mutexSta
 	} else if s, ok := instr.(string); ok {
 		where = s
 	}
-	if tr.allow[fn] || tr.allow[path] {
+	if strings.Contains(where, "zz_verif_") {
+		return // harness code inspecting the state between operations
+	}
+	if oblig != "C13.immutable-field-written" && (tr.allow[fn] || tr.allow[path] || tr.allow["immutable:"+path]) {
 		ex.notes["C13 allowed access: "+path+" in "+fn] = "declared happens-before justification"
 		return
 	}
@@ -499,7 +509,6 @@ func (ex *exec) lockViolation(oblig, path string, instr interface{}, m *mutexSta
 	if m.r > 0 {
 		mode = "read lock only"
 	}
-	ex.oblig[oblig]++
 	ex.event(fmt.Sprintf("LOCK-VIOLATION %s field=%s fn=%s held=%s at=%s", oblig, path, fn, mode, where))
 	ex.recordFailure("assert", oblig, fmt.Sprintf("access to %s in %s with %s (%s)", path, fn, mode, where), nil)
 	ex.failures[len(ex.failures)-1].Where = fn + "|" + path + "|" + mode
